@@ -74,17 +74,32 @@ func vtr(src string, fromRaw, toRaw string) string {
 	return string(out)
 }
 
-// the to-set is expanded like any set, but a leading ^ has no meaning there (it stays a member)
+// the to-set is expanded like any set (ranges only when it has at least 3 characters), but a
+// leading ^ has no meaning there: it stays a member and the rest is expanded after it
 func vexpandTo(s string) (bool, []byte) {
-	if len(s) >= 3 && s[0] == '^' {
-		_, set := vexpand(s[1:])
-		return false, append([]byte{'^'}, set...)
-	}
 	if len(s) < 3 {
 		return false, []byte(s)
 	}
-	_, set := vexpand(s)
-	return false, set
+	if s[0] == '^' {
+		return false, append([]byte{'^'}, vranges(s[1:])...)
+	}
+	return false, vranges(s)
+}
+
+// vranges expands a-b ranges, nothing else
+func vranges(s string) []byte {
+	var set []byte
+	for i := 0; i < len(s); i++ {
+		if i+2 < len(s) && s[i+1] == '-' {
+			for c := int(s[i]); c <= int(s[i+2]); c++ {
+				set = append(set, byte(c))
+			}
+			i += 2
+		} else {
+			set = append(set, s[i])
+		}
+	}
+	return set
 }
 
 func vrangeOK(s string) bool {
